@@ -134,6 +134,10 @@ type bfScenario struct {
 	handler *validitywindow.BlockFetcherHandler[validitywindow.ExecutionBlock[bfTx]]
 	fork    []*bfBlock
 	rng     *rand.Rand
+	// forward syncing: blocks above the initial target are handed to UpdateSyncTarget by "update" script entries,
+	// executed while the client goroutine waits inside FetchBlocksFromPeer (so they never race with its block loop)
+	update func(h int) error
+	tgt    int
 }
 
 func (s *bfScenario) log(m map[string]any) {
@@ -189,6 +193,7 @@ func (s *bfScenario) peekBehaviour() string {
 
 // p2p.NodeSampler
 func (s *bfScenario) Sample(_ context.Context, _ int) []ids.NodeID {
+	s.runUpdates()
 	if s.peekBehaviour() == "nopeer" {
 		s.nextBehaviour()
 		s.log(map[string]any{"ev": "resp", "beh": "nopeer", "h": -1, "blocks": []map[string]any{}})
@@ -210,7 +215,28 @@ func (s *bfScenario) honest(ctx context.Context, nodeID ids.NodeID, req *validit
 }
 
 // validitywindow.NetworkBlockFetcher
+func (s *bfScenario) runUpdates() {
+	for s.peekBehaviour() == "update" {
+		s.nextBehaviour()
+		s.mu.Lock()
+		if s.tgt+1 >= len(s.chain) {
+			s.mu.Unlock()
+			continue
+		}
+		s.tgt++
+		h := s.tgt
+		s.mu.Unlock()
+		err := s.update(h)
+		l := map[string]any{"ev": "update", "h": h, "err": "none"}
+		if err != nil {
+			l["err"] = err.Error()
+		}
+		s.log(l)
+	}
+}
+
 func (s *bfScenario) FetchBlocksFromPeer(ctx context.Context, nodeID ids.NodeID, req *validitywindow.BlockFetchRequest) (*validitywindow.BlockFetchResponse, error) {
+	s.runUpdates()
 	beh := s.nextBehaviour()
 	h := -1
 	if req.BlockHeight < 1<<20 {
@@ -285,14 +311,52 @@ var bfBehaviours = []string{"partial", "truncated", "forged", "reordered", "swap
 func bfRunScenario(seed int64, idx int, tier string, dir string) error {
 	rng := rand.New(rand.NewSource(seed*7_000_003 + int64(idx)))
 	s := &bfScenario{bid: map[ids.ID]int{}, nextBid: 99, rng: rng}
-	n := 2 + rng.Intn(6) // target height
-	// timestamps: non-decreasing, blocks may share a timestamp
-	tss := make([]int64, n+1)
-	tss[0] = int64(rng.Intn(3))
-	for h := 1; h <= n; h++ {
-		tss[h] = tss[h-1] + int64([]int{0, 1, 1, 2, 3, 5}[rng.Intn(6)])
+	n0 := 2 + rng.Intn(6) // height of the initial sync target
+	nf := rng.Intn(3)     // blocks consensus delivers while the backfill runs
+	n := n0 + nf
+	have := rng.Intn(3) // ancestors of the target the node already has
+	if have > n0-1 {
+		have = n0 - 1
 	}
 	win := int64([]int{1, 2, 3, 5, 8, 1000}[rng.Intn(6)]) // 1000: the chain is younger than the window
+	// timestamps: non-decreasing, blocks may share a timestamp; often the oldest block the node has shares its
+	// timestamp with its parent (and grand-parent)
+	tss := make([]int64, n+1)
+	tss[0] = int64(rng.Intn(3))
+	eq := rng.Intn(3) == 0
+	for h := 1; h <= n0; h++ {
+		tss[h] = tss[h-1] + int64([]int{0, 1, 1, 2, 3, 5}[rng.Intn(6)])
+		if eq && (h == n0-have || h == n0-have-1) {
+			tss[h] = tss[h-1]
+		}
+	}
+	// what populate will make the oldest linked block: walk down from the target through the held blocks
+	minTS0 := tss[n0] - win
+	o := n0 - have
+	for h := n0; h >= n0-have; h-- {
+		if tss[h] < minTS0 {
+			o = h
+			break
+		}
+	}
+	// forward blocks: exactly one window after the oldest held block, one tick more, one tick less, or close by
+	for h := n0 + 1; h <= n; h++ {
+		var t int64
+		switch rng.Intn(5) {
+		case 0, 1:
+			t = tss[o] + win
+		case 2:
+			t = tss[o] + win + 1
+		case 3:
+			t = tss[o] + win - 1
+		default:
+			t = tss[h-1] + int64(rng.Intn(3))
+		}
+		if t < tss[h-1] {
+			t = tss[h-1]
+		}
+		tss[h] = t
+	}
 	txn := 0
 	txsLog := make([][]int, n+1)
 	parent := ids.Empty
@@ -316,13 +380,10 @@ func bfRunScenario(seed int64, idx int, tier string, dir string) error {
 		s.fork = append(s.fork, b)
 		fp = b.id
 	}
-	target := s.chain[n]
-	have := rng.Intn(3) // ancestors of the target the node already has
-	if have > n-1 {
-		have = n - 1
-	}
+	target := s.chain[n0]
+	s.tgt = n0
 	ci := &bfChainIndex{m: map[ids.ID]*bfBlock{}}
-	for h := n - have; h <= n; h++ {
+	for h := n0 - have; h <= n0; h++ {
 		ci.m[s.chain[h].id] = s.chain[h]
 	}
 	for k := rng.Intn(5); k > 0; k-- {
@@ -331,8 +392,15 @@ func bfRunScenario(seed int64, idx int, tier string, dir string) error {
 	if tier == "thorough" && rng.Intn(10) == 0 {
 		s.script = append(s.script, "slow")
 	}
+	for k := 0; k < nf; k++ { // the forward blocks arrive at random points of the script (mostly early)
+		at := 0
+		if len(s.script) > 0 && rng.Intn(3) == 0 {
+			at = rng.Intn(len(s.script) + 1)
+		}
+		s.script = append(s.script[:at], append([]string{"update"}, s.script[at:]...)...)
+	}
 	s.handler = validitywindow.NewBlockFetcherHandler[validitywindow.ExecutionBlock[bfTx]](bfRetriever{chain: s.chain})
-	s.log(map[string]any{"ev": "reset", "sc": idx, "n": n, "win": win, "ts": tss, "have": have, "txs": txsLog, "script": append([]string{"-"}, s.script...)})
+	s.log(map[string]any{"ev": "reset", "sc": idx, "n": n, "n0": n0, "win": win, "ts": tss, "have": have, "txs": txsLog, "script": append([]string{"-"}, s.script...)})
 
 	ctx, cancel := context.WithCancel(context.Background())
 	defer cancel()
@@ -343,6 +411,7 @@ func bfRunScenario(seed int64, idx int, tier string, dir string) error {
 	}
 	client := validitywindow.NewBlockFetcherClient[validitywindow.ExecutionBlock[bfTx]](s, bfParser{}, s)
 	syncer := validitywindow.NewSyncer[bfTx, validitywindow.ExecutionBlock[bfTx]](s, tvw, client, winF)
+	s.update = func(h int) error { return syncer.UpdateSyncTarget(ctx, s.chain[h]) }
 	if err := syncer.Start(ctx, target); err != nil {
 		return err
 	}
@@ -367,7 +436,10 @@ func bfRunScenario(seed int64, idx int, tier string, dir string) error {
 	for _, u := range universe {
 		items = append(items, bfTx{N: u, Expiry: 1 << 40})
 	}
-	bits, rerr := tvw.IsRepeat(context.Background(), target, target.GetTimestamp(), items)
+	s.mu.Lock()
+	cur := s.chain[s.tgt]
+	s.mu.Unlock()
+	bits, rerr := tvw.IsRepeat(context.Background(), cur, cur.GetTimestamp(), items)
 	tracked := []int{}
 	if rerr == nil {
 		for i, u := range universe {
